@@ -219,8 +219,8 @@ def main(argv=None):
         rep.add_results(nm, mine, sum(1 for it in items if it["section"] == si) - len(mine), exhaustive=(si == 0))
     import superrec2.utils.trees as m9, superrec2.model.reconciliation as m4, superrec2.compute.super_reconciliation as m5
     import superrec2.compute.unordered_super_reconciliation as m6
-    rep.functions = R.source_digest(m9.binarize, m9.arrange_leaves, m9.graft, m9.is_binary, m4.ReconciliationInput.binarize,
-                                    m4.ReconciliationInput.label_internal, m5._spfs, m6._uspfs)
+    rep.functions = R.safe_digest(lambda: R.source_digest(m9.binarize, m9.arrange_leaves, m9.graft, m9.is_binary, m4.ReconciliationInput.binarize,
+                                    m4.ReconciliationInput.label_internal, m5._spfs, m6._uspfs))
     rep.bounds = {"enumerator": f"every plane tree shape with arbitrary arities and 1-{maxl} leaves" + (" + the 6-leaf star" if q else "") +
                                 "; ancestors named with probability 0.6, colour features with probability 0.35 (seeded)",
                   "inputs": f"{ninp} seeded inputs with polytomies (3-5 object leaves, 3-4 species leaves, arity up to 4)",
